@@ -8,6 +8,7 @@ import (
 	"path/filepath"
 	"reflect"
 	"strings"
+	"time"
 
 	textwire "github.com/textwire/textwire/v2"
 	"github.com/textwire/textwire/v2/config"
@@ -204,11 +205,23 @@ func histOps() []histOp {
 			out, err := textwire.EvaluateString("{{ it.name }} {{ it.extra }} {{ it.next.name }}", map[string]any{"it": histShared})
 			return fmt.Sprintf("out=%q err=%v", out, err)
 		}},
+		// one path rewritten between calls with text of the same length, the modification time restored
+		{"EvaluateFile(rewritten: bold)", func(h *histEnv) string { return evalRewritten(h, "<b>{{ 2 * 3 }}</b> first") }},
+		{"EvaluateFile(rewritten: italic)", func(h *histEnv) string { return evalRewritten(h, "<i>{{ 2 * 5 }}</i> other") }},
 		{"EvaluateFile(missing)", func(h *histEnv) string {
 			out, err := textwire.EvaluateFile(h.absFile+".gone", nil)
 			return fmt.Sprintf("out=%q err=%v", out, err)
 		}},
 	}
+}
+
+func evalRewritten(h *histEnv, content string) string {
+	p := filepath.Join(filepath.Dir(h.absFile), "rewritten.txt")
+	fixed := time.Unix(1700000000, 0)
+	os.WriteFile(p, []byte(content), 0o644)
+	os.Chtimes(p, fixed, fixed)
+	out, err := textwire.EvaluateFile(p, nil)
+	return fmt.Sprintf("out=%q err=%v", out, err)
 }
 
 var histConfigs = []struct {
@@ -276,7 +289,7 @@ func init() {
 	core.Register(&core.Check{
 		ID:    "C16",
 		Level: "exploration",
-		Rule: "histories are all sequences up to length 2 (quick) / 3 (thorough), sampled ones a step longer and random ones of length 30, over 30 concrete operations on a fixed template tree: String of a layout+component+loop page with struct data, of a page reading user.name with a Go struct, with a map holding name and Name, with a lower-case-only map, of two pages that fail at run time after producing output, of a missing name, of a layout name, of a page calling reverse/append/slice/prepend on data arrays; Response ok/failing/missing (the failing ones render the error page through the string API); EvaluateString ok/failing; EvaluateFile ok/missing - on 3 directory/extension settings x debug on/off x custom error page none/valid/failing; also renders without data that assign at top level followed by renders that read the name, loops that fail in a later pass followed by other loops, one page with call arguments built from prefix operators rendered with two data sets, two struct types that print the same type name, and one long-lived pointer that first holds an unsupported value and is then repaired. " +
+		Rule: "histories are all sequences up to length 2 (quick) / 3 (thorough), sampled ones a step longer and random ones of length 30, over 32 concrete operations on a fixed template tree: String of a layout+component+loop page with struct data, of a page reading user.name with a Go struct, with a map holding name and Name, with a lower-case-only map, of two pages that fail at run time after producing output, of a missing name, of a layout name, of a page calling reverse/append/slice/prepend on data arrays; Response ok/failing/missing (the failing ones render the error page through the string API); EvaluateString ok/failing; EvaluateFile ok/missing - on 3 directory/extension settings x debug on/off x custom error page none/valid/failing; also renders without data that assign at top level followed by renders that read the name, loops that fail in a later pass followed by other loops, one page with call arguments built from prefix operators rendered with two data sets, two struct types that print the same type name, and one long-lived pointer that first holds an unsupported value and is then repaired. " +
 			"Each step's observation (output, or message+line+path; body and returned error for Response) is compared with the same operation issued first on a fresh load; after every step the verif hooks VerifFingerprint (loaded ASTs) and VerifState (configuration) must equal their values after load. distinct_nontrivial = distinct (configuration, history) pairs",
 		Assumptions: []string{
 			"the baseline of an operation is its result as the first call of a fresh process that loaded the same tree with the same configuration (one child process per operation and configuration)",
